@@ -11,9 +11,19 @@ Rec == ndJsonDeserialize(IOEnv.TRACE)
 VARIABLES l
 Ev == Rec[l]
 Init == l = 1
+AtomAsIs(k) == Scan(Ev.atoms[k].s, 1, <<>>, <<>>, FALSE, FALSE, Ev.dr, Ev.dc)
+RECURSIVE Explains(_, _)
+Explains(res, k) ==
+  IF k > Len(Ev.atoms) THEN res = <<>>
+  ELSE \E ch \in {Ev.atoms[k].ideal, AtomAsIs(k)} :
+         /\ Len(ch) <= Len(res) /\ SubSeq(res, 1, Len(ch)) = ch
+         /\ Explains(SubSeq(res, Len(ch) + 1, Len(res)), k + 1)
+
 TReplace == /\ l <= Len(Rec) /\ Ev.e = "replace" /\ "error" \notin DOMAIN Ev
             /\ LET asis == Scan(Ev.s, 1, <<>>, <<>>, FALSE, FALSE, Ev.dr, Ev.dc) IN
-                 /\ (Ev.res = Ev.ideal \/ (Ev.feats # <<>> /\ Ev.res = asis))
+                 \* ideal, or -- on a formula exhibiting listed deviations -- explained atom by atom: every
+                 \* atom reads ideal or as the as-is scanner reads it (some deviations may be repaired)
+                 /\ (Ev.res = Ev.ideal \/ (Ev.feats # <<>> /\ Explains(Ev.res, 1)))
                  /\ (Ev.feats = <<>> => asis = Ev.ideal)
             /\ l' = l + 1
 \* {"e":"tall","ref","want","got"}: a group spanning more than 16 384 rows (or reaching the last
